@@ -64,7 +64,7 @@ var allowed = map[string]bool{"A": true, "5": true, "3": true}
 
 func main() {
 	c := vk.Init("C07")
-	c.Rule("histories that contain no acceptable Logon (refused and damaged Logons, Heartbeat, TestRequest, Logout, application, unknown types, ResendRequests over 8 ranges incl. e=0, b>e, b=0, beyond the stored range), both roles, with an empty message store and with a store preloaded through the public Save/SetSeqNum API with 5 messages of an earlier session: EXHAUSTIVE up to length 2 (quick) / 3 (thorough) plus random histories up to length 12; plus real-time idle scenarios (2.5 s of silence before any Logon on an acceptor; an initiator with N=1 whose Logon is never answered). Oracle: MsgType of every message on Outgoing() must be A, 5 or 3. distinct = (role, store, sequence); non-trivial = at least one message was emitted or a ResendRequest was in the history")
+	c.Rule("histories that contain no acceptable Logon (refused and damaged Logons, Heartbeat, TestRequest, Logout, application, unknown types, ResendRequests over 8 ranges incl. e=0, b>e, b=0, beyond the stored range), both roles, with an empty message store and with a store preloaded through the public Save/SetSeqNum API with 5 messages of an earlier session: EXHAUSTIVE up to length 2 (quick) / 3 (thorough) plus random histories up to length 12; plus real-time idle scenarios (2.6 s of silence on an acceptor before any Logon, after a Logon with an out-of-range interval, after a Logon the application's callback refused; an initiator with N=1 whose Logon is never answered). Oracle: MsgType of every message on Outgoing() must be A, 5 or 3. distinct = (role, store, sequence); non-trivial = at least one message was emitted or a ResendRequest was in the history")
 	c.Assume("the application itself sends nothing before logon (the statement is about what the session transmits on its own)")
 	maxLen := c.Pick(2, 3)
 	nRandom := c.Pick(600, 20000)
@@ -173,7 +173,7 @@ func main() {
 	})
 
 	// real-time idle scenarios: timers must not run before logon
-	idle := c.Pick(6, 40)
+	idle := c.Pick(8, 40)
 	var wg sync.WaitGroup
 	for i := 0; i < idle; i++ {
 		wg.Add(1)
@@ -181,14 +181,26 @@ func main() {
 			defer wg.Done()
 			role := rig.Role(i % 2)
 			desc := fmt.Sprintf("%s idle for 2.6 s before logon (initiator HeartBtInt=1, acceptor limits [1,60])", role)
-			r, err := rig.NewStepRig(rig.StepCfg{Role: role, HeartBtInt: 1, Limits: &session.IntLimits{Min: 1, Max: 60}})
+			r, err := rig.NewStepRig(rig.StepCfg{Role: role, HeartBtInt: 1, Limits: &session.IntLimits{Min: 1, Max: 60},
+				OnLogon: func(ls *session.LogonSettings) error {
+					if !rig.Approve(ls.Username, ls.Password) {
+						return fmt.Errorf("refused")
+					}
+					return nil
+				}})
 			if err != nil {
 				c.Inconclusive("rig: " + err.Error())
 				return
 			}
 			defer r.Close()
 			p := rig.NewPeer()
-			if i%4 >= 2 && role == rig.Acceptor {
+			switch {
+			case i%8 >= 6 && role == rig.Acceptor:
+				// a Logon that passes every library check (N=1 is within the limits) but is refused by the application, then silence
+				desc += " after a Logon the application's callback refused"
+				r.Inbound(p.Logon(1, "0", fixref.F(rig.TUser, rig.BadUser), fixref.F(rig.TPass, "x")))
+			case i%4 >= 2 && role == rig.Acceptor:
+				desc += " after a Logon with an interval below the limit"
 				r.Inbound(p.Logon(0, "0")) // refused logon with interval below the limit, then silence
 			}
 			time.Sleep(2600 * time.Millisecond)
